@@ -57,12 +57,19 @@ void parallel_range_thread_fn(
     std::atomic<IntT>& result_value,
     IntT end_value,
     size_t thread_num) {
-  IntT v;
-  while ((v = current_value.fetch_add(1)) < end_value) {
+  // Claim values with compare-and-swap rather than an unconditional fetch_add,
+  // so the cursor never passes end_value (it would wrap around, and hand out
+  // values a second time, if end_value is close to the maximum of IntT)
+  IntT v = current_value.load();
+  while (v < end_value) {
+    if (!current_value.compare_exchange_weak(v, static_cast<IntT>(v + 1))) {
+      continue; // v now holds the cursor's present value
+    }
     if (fn(v, thread_num)) {
       result_value = v;
       current_value = end_value;
     }
+    v = current_value.load();
   }
 }
 
@@ -122,9 +129,13 @@ void parallel_range_blocks_thread_fn(
     IntT end_value,
     IntT block_size,
     size_t thread_num) {
-  IntT block_start;
-  while ((block_start = current_value.fetch_add(block_size)) < end_value) {
+  // See parallel_range_thread_fn for why this isn't a fetch_add
+  IntT block_start = current_value.load();
+  while (block_start < end_value) {
     IntT block_end = block_start + block_size;
+    if (!current_value.compare_exchange_weak(block_start, block_end)) {
+      continue; // block_start now holds the cursor's present value
+    }
     for (IntT z = block_start; z < block_end; z++) {
       if (fn(z, thread_num)) {
         result_value = z;
@@ -132,6 +143,7 @@ void parallel_range_blocks_thread_fn(
         break;
       }
     }
+    block_start = current_value.load();
   }
 }
 
